@@ -17,8 +17,12 @@
            target, column-count / type / range / size error in the FIRST row or first matching
            row, SET from a column, unevaluable WHERE). Successful statements are unrestricted.
            This is exactly the complement of findings F11a-c.
-     (ii)  ev_ok: column names of a CREATE TABLE are pairwise distinct (the tuple is a map by
-           column name; needed by the proof, no counterexample known);
+     (ii)  (removed) column names of a CREATE TABLE need not be assumed pairwise distinct any
+           more: this hypothesis, forced by the proof (a tuple is a map by column name), was the
+           signal of a genuine defect - CREATE TABLE t (a int, a int); INSERT INTO t VALUES (1, 2)
+           succeeded and SELECT * returned (2, 2). /repo e322443 makes createTable refuse a name
+           used twice (model: st_create_table / names_distinct); such a statement now fails
+           before any change and is covered by (i);
      (iii) ev_ok: literals are Go values: integers within int64, strings shorter than 2^32
            bytes (the model's Z / string are unbounded; Go's int64 / len are not);
      (iv)  the data file stays below 2^63 bytes (offsets are stored as BIGINT);
